@@ -701,7 +701,10 @@ int ILLsymboltab_uname (
 	{
 		i = 0;
 		sprintf (prefix, "%s", try_prefix[0]);
-		numlen = (log10 ((double) (symtab->tablesize - 1) * 10)) + 1;
+		/* log10 (0) is -inf: with a single entry in the table one digit plus
+		 * the separator is all that is needed */
+		numlen = (symtab->tablesize > 1) ?
+			(log10 ((double) (symtab->tablesize - 1) * 10)) + 1 : 2;
 		while (!found)
 		{
 			ILL_FAILfalse (i <= nvars, "something wrong in find_unique_name");
